@@ -641,8 +641,11 @@ fn lex_line(
 								{
 									String::new()
 								};
-								let c = u32::from_str_radix(&literal, 16)
-									.ok()
+								// A unicode escape has 1 to 6 digits, and stands for
+								// UTF-8 bytes: it has no place in a char8 literal.
+								let c = Some(&literal)
+									.filter(|x| x.len() <= 6 && opening_quote == '"')
+									.and_then(|x| u32::from_str_radix(x, 16).ok())
 									.and_then(|x| char::from_u32(x));
 								if let Some(c) = c
 								{
